@@ -56,7 +56,9 @@ Corpus == {
   <<"choice", <<0, 1>>, El("a", "string", 1, 1), BGrp("choice", <<1, U>>, 1), Seq2("choice", <<0, U>>, 1), 3, "model">>,
   <<"choice", <<0, U>>, El("a", "string", 1, 1), El("b", "string", 1, 1), El("c", "string", 1, 1), 1, "model">>,      \* (a | b | c)*
   <<"choice", <<1, U>>, El("a", "EMPTY", 1, 1), El("b", "Kid", 1, 1), El("c", "string", 1, 1), 3, "model">>,          \* (a | b | c)+
-  <<"choice", <<1, 1>>, El("a", "string", 1, 1), El("b", "string", 1, 1), El("c", "EMPTY", 1, 1), 2, "model">> }
+  <<"choice", <<1, 1>>, El("a", "string", 1, 1), El("b", "string", 1, 1), El("c", "EMPTY", 1, 1), 2, "model">>,
+  <<"seq", <<1, 1>>, El("a", "string", 1, 1), El("b", "Rec", 0, U), [k |-> "none"], 1, "model">>,                     \* a recursive content model: b (x, b?)
+  <<"choice", <<0, U>>, El("a", "EMPTY", 1, 1), El("b", "Rec", 1, 1), [k |-> "none"], 3, "model">> }
 InitCorpus == \E c \in Corpus, i \in 0..MaxDocIdx : parts = Append(c, i)
 
 Root == Grp(parts[1], parts[2][1], parts[2][2], <<parts[3], parts[4]>> \o (IF parts[5].k = "none" THEN <<>> ELSE <<parts[5]>>))
